@@ -106,9 +106,12 @@ EXPORT int vfprintf_s(FILE *restrict stream, const char *restrict fmt,
     }
 #else
     wrap.arg = stream;
+    wrap.failed = 0;
     ret = safec_vsnprintf_s(safec_out_fchar, "vfprintf_s", (char*)&wrap, (rsize_t)-1, fmt, ap);
 
-    if (unlikely(ret < 0 && errno != 0)) {
+    /* constraint violations have been reported where they were found:
+       what is left to report is a failing stream */
+    if (unlikely(ret < 0 && wrap.failed)) {
         char errstr[128] = "vfprintf_s: ";
         strcat(errstr, strerror(errno));
         invoke_safe_str_constraint_handler(errstr, NULL, -ret);
